@@ -471,7 +471,15 @@ func c06AccountBlock(r *core.Run, sb *shapeBuilder, fn *ssa.Function, b *ssa.Bas
 		// first ADD in succ (before the next call) that adds to an int
 		var add *ssa.BinOp
 		for _, in2 := range succ.Instrs {
-			if _, isCall := in2.(ssa.CallInstruction); isCall {
+			if ci, isCall := in2.(ssa.CallInstruction); isCall {
+				// post-processing of what was read (len, strings.TrimSuffix, conversions) is looked through; any
+				// call into the module (the next wire read, a nested reader) ends the region
+				if _, isBI := ci.Common().Value.(*ssa.Builtin); isBI {
+					continue
+				}
+				if f := ci.Common().StaticCallee(); f != nil && !core.InModule(f) && !ci.Common().IsInvoke() {
+					continue
+				}
 				break
 			}
 			if bo, ok := in2.(*ssa.BinOp); ok && bo.Op == token.ADD && isIntType(bo.Type()) {
@@ -502,7 +510,27 @@ func c06AccountBlock(r *core.Run, sb *shapeBuilder, fn *ssa.Function, b *ssa.Bas
 			if !okAdd {
 				if lc, ok := core.Strip(addend).(*ssa.Call); ok {
 					if bi, ok := lc.Call.Value.(*ssa.Builtin); ok && bi.Name() == "len" {
-						if ex, ok := lc.Call.Args[0].(*ssa.Extract); ok && ex.Tuple == ssa.Value(call) {
+						of := core.Strip(lc.Call.Args[0])
+						// len(pkg.F) where pkg.F was just assigned the result of this read
+						if ld, isLd := of.(*ssa.UnOp); isLd && ld.Op == token.MUL {
+							if fa, isFA := ld.X.(*ssa.FieldAddr); isFA {
+								var last ssa.Value
+								for _, in3 := range append(append([]ssa.Instruction{}, b.Instrs[i+1:]...), succ.Instrs...) {
+									if in3 == ssa.Instruction(ld) {
+										break
+									}
+									if st, isSt := in3.(*ssa.Store); isSt {
+										if fa2, ok2 := st.Addr.(*ssa.FieldAddr); ok2 && fa2.Field == fa.Field && core.Strip(fa2.X) == core.Strip(fa.X) {
+											last = core.Strip(st.Val)
+										}
+									}
+								}
+								if last != nil {
+									of = last
+								}
+							}
+						}
+						if ex, ok := of.(*ssa.Extract); ok && ex.Tuple == ssa.Value(call) {
 							okAdd = true
 						}
 					}
